@@ -1,6 +1,10 @@
 package main
 
-import "go/types"
+import (
+	"go/types"
+
+	"golang.org/x/tools/go/ssa"
+)
 
 // packageByName finds a loaded package by its name, preferring one imported by the package at prefPath.
 func (e *Engine) packageByName(name, prefPath string) *types.Package {
@@ -33,4 +37,37 @@ func (ce *CEnv) fieldOfSelf(name string) (Val, bool) {
 		return Val{}, false
 	}
 	return ce.fieldOf(*ce.self, name, false)
+}
+
+// externContract finds an `extern func` contract for a function outside the repository.
+func (e *Engine) externContract(obj *types.Func) *FuncContract {
+	if obj == nil || obj.Pkg() == nil {
+		return nil
+	}
+	key := "extern#" + obj.Pkg().Name() + "."
+	if sig, ok := obj.Type().(*types.Signature); ok && sig.Recv() != nil {
+		if n, ok := derefNamed(sig.Recv().Type()); ok {
+			key += n.Obj().Name() + "."
+		}
+	}
+	return e.cs.Funcs[key+obj.Name()]
+}
+
+// blockReaches reports whether there is a CFG path from a to b.
+func blockReaches(a, b *ssa.BasicBlock) bool {
+	seen := map[*ssa.BasicBlock]bool{}
+	stack := []*ssa.BasicBlock{a}
+	for len(stack) > 0 {
+		x := stack[len(stack)-1]
+		stack = stack[:len(stack)-1]
+		if x == b {
+			return true
+		}
+		if seen[x] {
+			continue
+		}
+		seen[x] = true
+		stack = append(stack, x.Succs...)
+	}
+	return false
 }
